@@ -222,6 +222,9 @@ def run(C, R):
                     defs = {f_['name']: f_['ty'] for f_ in F.adts[path.ret[1]]['variants'][0]['fields']}
                     cands_ = [fv for n_, fv in path.ret[3] if n_ in defs and holds_payload_by_value(F, defs[n_])]
                     slot = cands_[0] if len(cands_) == 1 else None
+                if slot is None and path.ret[0] == 'agg' and path.ret[1].endswith('task::Poll'):
+                    R.ok('C08.R1a', '%s|Pending carries nothing|%s' % (sor[0]['path'], path_cond(E, path)))
+                    continue
                 if slot is not None and value_is_none(E, path, slot):
                     R.ok('C08.R1a', '%s|%s' % (sor[0]['path'], path_cond(E, path)))
                 else:
